@@ -103,7 +103,7 @@ check("C03",
 
 check("C05",
       "analyze() is modelled in Model/Static.v (tied to SC62015.get_instruction_info: length + branch list on every encoding), execution by Model/Lift.v + Model/IL.v. "
-      "Coq theorems, for every displacement/target, address and state: all ten relative jumps (JR, JRZ/NZ/C/NC, +n/-n) and the five 16-bit absolute jumps report fall-through = address+length and taken = the computed target, and executing the lifted IL ends with PC equal to the taken target exactly when the flag condition holds and to the fall-through otherwise, every other register, flag and memory byte untouched (run of the label/if IL proved by case analysis on the flag, fuel made explicit). Calls and returns (Proofs/CallProofs.v): CALLF lmn / CALL mn leave exactly the return address (20 resp. 16 bits, little-endian) below the old S, move S, jump to the target (page of the instruction for CALL) and touch nothing else; from ANY later well-formed state that has S back at the frame and the frame bytes intact (a stack-neutral callee), RETF resumes at the instruction after the CALLF with the caller's S - unconditionally - and RET does so under the guard that it executes in the 64K page of the return address; the unguarded near pair is refuted with a witness (Props/C05_refuted.v); IR pushes next-PC, C|Z<<1 and IMR, clears only IMR.7 and jumps through the vector, and IR ... RETI restores PC, S, carry, zero and IMR from any state with the frame intact. "
+      "Coq theorems, for every displacement/target, address and state: all ten relative jumps (JR, JRZ/NZ/C/NC, +n/-n) and the five 16-bit absolute jumps report fall-through = address+length and taken = the computed target, and executing the lifted IL ends with PC equal to the taken target exactly when the flag condition holds and to the fall-through otherwise, every other register, flag and memory byte untouched (run of the label/if IL proved by case analysis on the flag, fuel made explicit). Far and indirect jumps (Proofs/BranchProofs2.v): JPF lmn reports and reaches the 20-bit immediate; JP r3 reports an unresolved branch and loads PC from the selected register (every operand byte; short registers keep the instruction's page); JP (n) x 16 prefix choices reports an unresolved branch and loads PC with the low 20 bits of the denoted 3-byte cell. Calls and returns (Proofs/CallProofs.v): CALLF lmn / CALL mn leave exactly the return address (20 resp. 16 bits, little-endian) below the old S, move S, jump to the target (page of the instruction for CALL) and touch nothing else; from ANY later well-formed state that has S back at the frame and the frame bytes intact (a stack-neutral callee), RETF resumes at the instruction after the CALLF with the caller's S - unconditionally - and RET does so under the guard that it executes in the 64K page of the return address; the unguarded near pair is refuted with a witness (Props/C05_refuted.v); IR pushes next-PC, C|Z<<1 and IMR, clears only IMR.7 and jumps through the vector, and IR ... RETI restores PC, S, carry, zero and IMR from any state with the frame intact. "
       "Every run: reported targets vs the PC the Python emulator reaches for every valid encoding under the actual flags, 'no branch => address+length', 'elsewhere => a branch is reported', and CALL..RET / CALLF..RETF / IR..RETI pairs around stack-neutral bodies at random and page-edge addresses (resume address, S, F, IMR).",
       "Trusted: Coq kernel, extraction, harness drivers. Modelled not verified: analyze methods, lifts, evaluator. Partial: theorems cover immediate jumps and the CALL/RET, CALLF/RETF, IR/RETI pairs (addresses below the top of the address space, stack below the vector); register/memory-indirect jumps and the completeness clause ('continues elsewhere => a branch is reported') are decided on the implementation against the model-tied metadata. Known finding: near CALL whose return address is in the next 64K page. Fixed: JP (n) reported address n as target; JP r3/(n) reported no branch.",
       "Coq proof (symbolic execution of conditional-jump and call/return IL, lia) + branch-metadata and execution correspondence vs get_instruction_info / the Python emulator",
